@@ -355,7 +355,9 @@ func (c *Ctx) finish(def *PropDef, outDir, knownPath string, seed int, start tim
 		os.Remove(violPath)
 	}
 	if len(broken) > 0 {
-		exit = 2
+		if exit == 0 { // a located violation outranks "could not evaluate the rest"
+			exit = 2
+		}
 		for _, b := range broken {
 			fmt.Printf("BROKEN property=%s %s\n", c.Prop, b)
 		}
